@@ -26,6 +26,7 @@ type Gen struct {
 	files   []*ast.File
 	funcs   map[string]*ssa.Function
 	repo    string
+	pure    map[string]bool // inferred effect-free package functions (purity.go)
 }
 
 func LoadProgram(repo string, tags string) (*Gen, error) {
